@@ -3,7 +3,6 @@ package variable
 import (
 	"fmt"
 
-
 	"github.com/pkg/errors"
 	"github.com/ysugimoto/falco/v2/interpreter/context"
 	"github.com/ysugimoto/falco/v2/interpreter/value"
